@@ -4,22 +4,27 @@
   Statement (full strength, `C13_statement`): for any two class bodies that declare the same fields,
   each field in any of its documented spellings (relation `ClassSame` / `FieldSame` / `SameMeaning`:
   annotation vs assignment, field class vs instance, builtin / typing / PEP-585 / PEP-604 vs typedpy
-  fields at every nesting depth, `= v` vs `default=v`, `Optional[T]` vs `AnyOf[T, None]` + `_optional`),
-  with or without `from __future__ import annotations`, the class statements have the same outcome
+  fields at every nesting depth, Structure classes as field types, one- and two-element tuples, `X | 529`,
+  `= v` vs `default=v`, default factories, `Optional[T]` vs `AnyOf[T, None]` + `_optional`), evaluated, quoted or
+  future-import annotations at module / function / nested scope, the class statements have the same outcome
   (same exception class, or classes with the same fields, `_required`, defaults) and the classes
   accept / reject / normalise every keyword-argument list identically.
 
-  The code still violates the full statement in two places (one open typedpy finding: a falsy invalid
-  `default=` is not validated; and typing's own de-duplication of `Union[int, int]`), each with a
-  kernel-checked counterexample below.  Five earlier findings (PEP-604 unions of plain types dropped /
-  rejected, `Field | None`, `Field | list[int]`, long annotations under the future import) were repaired in
-  typedpy commit b6795f9; the model, the pinned table and the supported region moved with it, and their
-  former counterexamples are now positive instances (`fixed_*`).  Proved: `statement_partial` — the
-  statement on the decidable region `classSupported`, which excludes exactly the open finding, the
-  places where `typing` / Python itself rewrites the expression (directly nested / duplicate union
-  members) and undocumented forms; it follows from `elabField_meaning` (model of the code = documented
-  meaning, by structural induction over spellings, `Lemmas/Elab.ev_good`) and `sameMeaning_denote`
-  (induction on the derivation).
+  The code still violates the full statement where open findings are listed (a falsy invalid `default=` is not
+  validated; typing's own de-duplication of `Union[int, int]` changes the error class; string annotations whose names
+  live in an enclosing function; mutable defaults - oracle-only), each modelled one with a kernel-checked counterexample
+  below (`counterexample_*`).  Findings repaired in typedpy (PEP-604 unions of plain types dropped / rejected,
+  `Field | None`, `Field | list[int]`, long annotations under the future import: b6795f9; tuple single class 0808c66;
+  factory once d1c0173; Structure-first union 1c6af32 and, as item type, 4d54fb6; `Tuple(items=<Structure class>)`
+  cdab473; quoted annotations b6495fe) are positive theorems (`fixed_*`): the model, the pinned table and the supported
+  region moved with each repair.  Proved: `statement_partial` — the statement on the decidable region `classSupported`,
+  which excludes exactly the open findings and undocumented forms; it follows from `elabField_meaning` (model of the
+  code = documented meaning, by structural induction over spellings, `Lemmas/Elab.ev_good`) and `sameMeaning_denote`
+  (induction on the derivation).  "Behaviourally identical" is the family `same_observation` / `same_behaviour` /
+  `same_serialize` / `same_deserialize` / `same_schema` (congruence through Sem/Validate, Sem/Serde, Sem/Deser,
+  Sem/Schema).  typing's rewriting of unions: `elaborate_flatten` / `flatten_equiv` / `elabField_flatten` (trees of
+  `Union` / `Optional` / PEP 604 `|`, `Lemmas/ElabFlat`) and `union_duplicate_collapses`.  `_required` written out:
+  `explicit_required_equiv`.
   All theorems are about `Sem/Elaborate` instantiated with `Pinned.typeMap`; `Props/C13Tie.lean`
   proves that this is the table extracted from the current working tree.
 -/
@@ -391,6 +396,24 @@ theorem none_default_equiv :
    ⟨rfl, SameMeaning.alt .pipe .anyOf (SameMeaning.scalar .builtin .cls .int) SameMeaning.none, rfl, rfl⟩,
    rfl, rfl, rfl, rfl, rfl, rfl, rfl, rfl⟩
 
+/-- `default=None` is the keyword's own default: `a: Integer(default=None)`, `a = Integer(default=None)`, `a: Integer()` and
+    `a: Integer` are the same declaration (a required field without default) - unlike `a: Integer = None`, where `None`
+    is validated as a value (and refused). -/
+theorem default_none_kw_equiv :
+    let a : FieldSp := annF (.finst .int) (.kw .none 4)
+    let a' : FieldSp := { name := "a", mode := .assign, ty := .finst .int, dflt := .kw .none 4 }
+    let b : FieldSp := annF fInt
+    FieldSame a b ∧ FieldSame a' b
+    ∧ fieldSupported noRe tm false a = true ∧ fieldSupported noRe tm true a' = true
+    ∧ elabField noRe tm false a = .ok (.field (.integer {}) true none)
+    ∧ elabField noRe tm false a' = elabField noRe tm false a
+    ∧ elabField noRe tm false b = elabField noRe tm false a
+    ∧ elabField noRe tm false (annF (.lit (.string none (some 3) none) 19) (.kw .none 4) true)
+        = .ok (.field (.string none (some 3) none) false none)
+    ∧ elabField noRe tm false (annF fInt (.eq .none 4)) = .error .typeErr :=
+  ⟨⟨rfl, SameMeaning.scalar .inst .cls .int, rfl, rfl⟩, ⟨rfl, SameMeaning.scalar .inst .cls .int, rfl, rfl⟩,
+   rfl, rfl, rfl, rfl, rfl, rfl, rfl⟩
+
 /-! ### default factories -/
 
 /-- A default factory (a callable) is kept as the field's default - evaluated for every instance - whether it
@@ -529,6 +552,25 @@ theorem elabField_flatten (O : Oracles) (future : Bool) (name : String) (inOpt :
   simp [elabField, evTop, ev_flatten s ht hl hd, annField, isFieldObj_treeObj, isSclsObj_treeObj, gtli_flatten s hl hd,
     afterGtli, finishField, hasNoneOpt]
 
+theorem typingArg_treeObj (k : UKind) (l : List Obj) : typingArg (treeObj k l) = treeObj k l := by
+  unfold treeObj; split <;> rfl
+
+/-- One level further down: a union tree as the ARGUMENT of a one-argument collection, in the builtin (`list[T]`),
+    typing (`List[T]`) and typedpy (`Array[T]`) spelling - the collection of the flattened AnyOf. -/
+theorem coll_of_union_tree (c : Coll) (s : Sp) (ht : isUnionTree s = true) (hl : leavesOk tm s = true)
+    (hd : allDistinct (flatObjs tm s) = true) :
+    elaborateAnn tm (.pep585 c s) = .ok (some (c.ofDecl (.anyOf (flatAlts s))))
+    ∧ elaborateAnn tm (.typingG c s) = .ok (some (c.ofDecl (.anyOf (flatAlts s))))
+    ∧ elaborateAnn tm (.sub c s) = .ok (some (c.ofDecl (.anyOf (flatAlts s)))) := by
+  have hev := ev_flatten s ht hl hd
+  have hg := gtli_flatten s hl hd
+  have hgi : getItem tm (treeObj (nodeKind s) (flatObjs tm s)) = .ok (.anyOf (flatAlts s)) := getItem_of_gtli' hg
+  refine ⟨?_, ?_, ?_⟩
+  · simp [elaborateAnn, ev, hev, gtli, cbt_coll, gtliArgs_one _ hg, mkFromArgs, coll_head_ne_anyOf, mkItems_coll, someDecl]
+  · simp [elaborateAnn, ev, hev, typingArg_treeObj, gtli, cbt_coll, gtliArgs_one _ hg, mkFromArgs, coll_head_ne_anyOf,
+      mkItems_coll, someDecl]
+  · simp [elaborateAnn, ev, hev, hgi, mkItems_coll, gtli]
+
 /-- non-vacuity: `Union[Union[int, None], str]`, `Union[int, Union[None, str]]`, `Union[Optional[int], str]`, the PEP 604
     chain `int | None | str`, `int | (None | str)` and the mixed `Optional[int] | str` / `List[int] | None` (a `|` with a
     typing object) are union trees over distinct supported leaves; the first six have the same flattened alternatives
@@ -603,6 +645,78 @@ theorem explicit_required_example :
     ∧ fieldNames (elabClass noRe tm (K (some ["a", "b"]) fb')) = some (["a", "b", "c"], ["a", "b"])
     ∧ fieldNames (elabClass noRe tm (K none fb')) = some (["a", "b", "c"], ["a", "b"]) :=
   ⟨rfl, rfl, rfl, rfl, rfl, rfl, rfl⟩
+
+/-! ### field and class level over the union of both proved regions (`classRegionX`) -/
+
+/-- On the union of the two regions - `fieldSupportedAt` (every spelling is its documented `denote`) and the union-tree
+    region (nested `Union` / `Optional` / `|`, with no default, a `= v` default or a default factory) - the model of
+    `StructMeta.__new__` yields the documented meaning `fieldMeaningX` (flattened where typing flattens). -/
+theorem elabField_meaningX (sc : Scope) (O : Oracles) (future : Bool) (fs : FieldSp)
+    (h : fieldRegionX O tm sc future fs = true) : elabFieldAt sc O tm future fs = fieldMeaningX O tm fs :=
+  elabFieldAt_meaningX sc O future fs h
+
+/-- Class level over the extended region: two class bodies whose fields pairwise have the same name and the same
+    documented meaning (`ClassSameX`: includes every `ClassSame` pair and all re-bracketings / re-spellings of nested
+    unions) give the same class statement outcome. -/
+theorem elabClass_equivX (O : Oracles) {c₁ c₂ : ClassSp} (h : ClassSameX O tm c₁.fields c₂.fields)
+    (hr : c₁.required = c₂.required)
+    (h₁ : classRegionX O tm c₁ = true) (h₂ : classRegionX O tm c₂ = true) :
+    elabClass O tm c₁ = elabClass O tm c₂ := by
+  simp only [elabClass, elabFields_sameX O c₁.scope c₂.scope c₁.future c₂.future h h₁ h₂, hr]
+  cases he : elabFields O tm c₂.scope c₂.future c₂.fields with
+  | error e => rfl
+  | ok rs =>
+    simp only [bindE_ok]
+    exact finishClass_opt_irrelevant _ _ _ rs (elabFields_allFieldX O c₂.scope c₂.future c₂.fields rs h₂ he)
+
+/-- ... and agree on every observation of the class (constructor, Serializer, Deserializer, schema). -/
+theorem same_observationX {α : Type} (O : Oracles) {c₁ c₂ : ClassSp} (h : ClassSameX O tm c₁.fields c₂.fields)
+    (hr : c₁.required = c₂.required)
+    (h₁ : classRegionX O tm c₁ = true) (h₂ : classRegionX O tm c₂ = true) (obs : FieldDecl → R α) :
+    observe O c₁ obs = observe O c₂ obs := by
+  simp only [observe, elabClass_equivX O h hr h₁ h₂]
+
+/-- `FieldSame` spellings inside the old region are `FieldSameX` (the extended relation loses nothing). -/
+theorem fieldSame_sameX (O : Oracles) {a b : FieldSp} (h : FieldSame a b)
+    (ha : flatRegion tm a = false) (hb : flatRegion tm b = false) : FieldSameX O tm a b :=
+  ⟨h.name, by simp [fieldMeaningX, ha, hb, fieldMeaning_same O h]⟩
+
+/-- non-vacuity: `a: Union[Union[int, None], str] = 7; b: str` (future import) and `a: int | (None | str) = 7; b = String`
+    are `ClassSameX`, both in the extended region (the first field outside `fieldSupported`), and construct / serialize
+    identically: `K(b='x')` gives `{"a": 7, "b": "x"}`. -/
+theorem classX_example :
+    let a₁ : FieldSp := { name := "a", mode := .ann, ty := .union (.union (.builtin .int) .noneLit) (.builtin .str), dflt := .eq (.int 7) 1 }
+    let a₂ : FieldSp := { name := "a", mode := .ann, ty := .pipe (.builtin .int) (.pipe .noneLit (.builtin .str)), dflt := .eq (.int 7) 1 }
+    let b₁ : FieldSp := { name := "b", mode := .ann, ty := .builtin .str }
+    let b₂ : FieldSp := { name := "b", mode := .assign, ty := fStr }
+    let c₁ : ClassSp := { future := true, fields := [a₁, b₁] }
+    let c₂ : ClassSp := { future := false, fields := [a₂, b₂] }
+    ClassSameX noRe tm c₁.fields c₂.fields
+    ∧ classRegionX noRe tm c₁ = true ∧ classRegionX noRe tm c₂ = true ∧ classSupported noRe tm c₁ = false
+    ∧ classSerialize noRe c₁ [("b", .str "x")] = .ok (.dict [(.str "a", .int 7), (.str "b", .str "x")])
+    ∧ classSerialize noRe c₂ [("b", .str "x")] = .ok (.dict [(.str "a", .int 7), (.str "b", .str "x")])
+    ∧ classBehaviour noRe c₁ [("a", .float ⟨1, 2⟩), ("b", .str "x")] = .error .valueErr :=
+  ⟨ClassSameX.cons ⟨rfl, rfl⟩ (ClassSameX.cons ⟨rfl, rfl⟩ ClassSameX.nil), rfl, rfl, rfl, rfl, rfl, rfl⟩
+
+/-- typing's de-duplication at non-adjacent positions and across bracketings, kernel-checked on the model (no general
+    theorem: `dedupObj` keeps the FIRST of each group of `==` members): `Union[int, str, int]` and `int | str | int` are
+    `Union[int, str]`; `Union[int, Union[str, int]]` as well; `Union[int, Optional[int]]` is `Optional[int]`;
+    `Union[list[int], List[int]]` keeps both (a PEP 585 alias and a typing alias are different objects), and
+    `Union[Integer(), Integer()]` keeps both Field instances. -/
+theorem dedup_examples :
+    elabField noRe tm false (annF (.union (.union (.builtin .int) (.builtin .str)) (.builtin .int)))
+        = elabField noRe tm false (annF (.union (.builtin .int) (.builtin .str)))
+    ∧ elabField noRe tm false (annF (.pipe (.pipe (.builtin .int) (.builtin .str)) (.builtin .int)))
+        = elabField noRe tm false (annF (.union (.builtin .int) (.builtin .str)))
+    ∧ elabField noRe tm false (annF (.union (.builtin .int) (.union (.builtin .str) (.builtin .int))))
+        = elabField noRe tm false (annF (.union (.builtin .int) (.builtin .str)))
+    ∧ elabField noRe tm false (annF (.union (.builtin .int) (.optional (.builtin .int))))
+        = elabField noRe tm false (annF (.optional (.builtin .int)))
+    ∧ elabField noRe tm false (annF (.union (.pep585 .list (.builtin .int)) (.typingG .list (.builtin .int))))
+        = .ok (.field (.anyOf [.seqOf .list (.integer {}) {}, .seqOf .list (.integer {}) {}]) true none)
+    ∧ elabField noRe tm false (annF (.union (.finst .int) (.finst .int)))
+        = .ok (.field (.anyOf [.integer {}, .integer {}]) true none) :=
+  ⟨rfl, rfl, rfl, rfl, rfl, rfl⟩
 
 /-! ### Structure classes as field types, two-element tuples -/
 
@@ -707,6 +821,31 @@ theorem fixed_struct_first_nested :
         = .ok (.field (.seqOf .list (.anyOf [.noneF, ownerD]) {}) true none) :=
   ⟨SameMeaning.coll .sub .sub .list (SameMeaning.altOptional .pipe (SameMeaning.scls ownerD 5 5)),
    rfl, rfl, rfl, rfl, rfl, rfl, rfl, rfl⟩
+
+/-! ### a literal alternative -/
+
+/-- The documented PEP-604 example `a: Integer(maximum=100) | Owner | str | 529` ("a can be assigned any integer up to 100,
+    an instance of Owner, a string, the number 529") and `AnyOf[AnyOf[AnyOf[Integer(maximum=100), Owner], String],
+    Enum(values=[529])]` are the same declaration, inside the proved region. -/
+theorem pipe_literal_equiv :
+    let i100 : Sp := .lit (.integer { max := some ⟨100, 1⟩ }) 20
+    let chain : Sp := .pipeLit (.pipe (.pipe i100 owner) (.builtin .str)) (.int 529) 3
+    let nested : Sp := .anyOf (.anyOf (.anyOf i100 owner) fStr) (.lit (.enumLit [.int 529]) 18)
+    let d : FieldDecl := .anyOf [.anyOf [.anyOf [.integer { max := some ⟨100, 1⟩ }, ownerD], .string none none none], .enumLit [.int 529]]
+    SameMeaning chain nested
+    ∧ fieldSupported noRe tm true (annF chain) = true ∧ fieldSupported noRe tm false (annF nested) = true
+    ∧ elabField noRe tm true (annF chain) = .ok (.field d true none)
+    ∧ elabField noRe tm false (annF nested) = .ok (.field d true none)
+    ∧ elabField noRe tm false { name := "a", mode := .assign, ty := chain } = .ok (.field d true none)
+    ∧ validate noRe d (.int 529) = .ok (.int 529)
+    ∧ validate noRe d (.int 99) = .ok (.int 99)
+    ∧ validate noRe d (.int 530) = .error .valueErr
+    ∧ elabField noRe tm false (annF (.pipeLit (.builtin .int) (.int 5) 1)) = .error .typeErr :=
+  ⟨SameMeaning.pipeLitAnyOf (.int 529) 3 18
+      (SameMeaning.alt .pipe .anyOf
+        (SameMeaning.alt .pipe .anyOf (SameMeaning.lit _ 20 20) (SameMeaning.scls ownerD 5 5))
+        (SameMeaning.scalar .builtin .cls .str)),
+   rfl, rfl, rfl, rfl, rfl, rfl, rfl, rfl, rfl⟩
 
 /-! ### behaviour clause, concretely -/
 
